@@ -13,6 +13,7 @@ import (
 	"runtime"
 	"strconv"
 	"sync"
+	"sync/atomic"
 	"time"
 )
 
@@ -23,6 +24,46 @@ type Result struct {
 	Died     bool
 	Stderr   string // tail of stderr if it died or timed out
 	TimedOut bool
+	Hang     string // set when the worker's watchdog saw no progress: the case it was on
+}
+
+var (
+	progressN    int64
+	progressDesc atomic.Value
+)
+
+// Progress is called by a worker before each case; desc must be enough to
+// reproduce the case.  A worker that makes no progress for HangSeconds is
+// reported with Result.Hang = desc of the case it was stuck on.
+func Progress(desc func() string) {
+	atomic.AddInt64(&progressN, 1)
+	progressDesc.Store(desc)
+}
+
+// HangSeconds is the no-progress watchdog limit (~10^5 x the expected cost of a case).
+var HangSeconds = 120
+
+func watchdog() {
+	last, idle := int64(-1), 0
+	for {
+		time.Sleep(time.Second)
+		now := atomic.LoadInt64(&progressN)
+		if now == last && now > 0 {
+			idle++
+		} else {
+			idle = 0
+		}
+		last = now
+		if idle >= HangSeconds {
+			d := ""
+			if f, ok := progressDesc.Load().(func() string); ok && f != nil {
+				d = f()
+			}
+			b, _ := json.Marshal(map[string]string{"__hang__": d})
+			os.Stdout.Write(b)
+			os.Exit(0)
+		}
+	}
 }
 
 // IsWorker reports whether this process was started by Map.
@@ -38,6 +79,7 @@ func WorkerMain(job interface{}, f func() interface{}) {
 		fmt.Fprintln(os.Stderr, "worker: bad job:", err)
 		os.Exit(3)
 	}
+	go watchdog()
 	res := f()
 	b, err := json.Marshal(res)
 	if err != nil {
@@ -100,6 +142,15 @@ func runOne(kind string, i int, j interface{}, timeout time.Duration, extraEnv [
 		r.Stderr = errb.String()
 		if err != nil {
 			r.Stderr += "\n" + err.Error()
+		}
+		return r
+	}
+	if bytes.HasPrefix(out.Bytes(), []byte(`{"__hang__":`)) {
+		var h map[string]string
+		_ = json.Unmarshal(out.Bytes(), &h)
+		r.Hang = h["__hang__"]
+		if r.Hang == "" {
+			r.Hang = "(no description)"
 		}
 		return r
 	}
